@@ -10,6 +10,46 @@ RUST_WS = "".join(chr(c) for c in [9, 10, 11, 12, 13, 32, 0x85, 0xA0, 0x1680] + 
 REL_FIELDS = ["Build-Depends", "Build-Depends-Indep", "Build-Depends-Arch", "Build-Conflicts", "Build-Conflicts-Indep",
               "Build-Conflicts-Arch", "Depends", "Recommends", "Suggests", "Enhances", "Pre-Depends", "Breaks"]
 
+CLS_UPL = "c07-uploaders-hash-piece"
+CLS_REL = "c07-unparsable-relation-panics"
+CLS_OP = "c07-nonstandard-operator-panics"      # C12's class c12-nonstandard-operator, reached through format_field
+import re
+_OP = re.compile(r"\(\s*([<>=]*)")
+
+def nonstandard_operator(text):
+    """some relationship field of the text has a version constraint whose operator is not one of << <= = >= >>"""
+    cur = None; vals = []
+    for l in text.replace("\r", "\n").split("\n"):
+        if l[:1] in (" ", "\t"):
+            if cur is not None and not l.lstrip(" \t").startswith("#"): cur.append(l)
+        elif l[:1] == "#" or l == "":
+            if l == "": cur = None
+        elif ":" in l:
+            k, v = l.split(":", 1); cur = None
+            if k.rstrip(" \t") in REL_FIELDS: cur = [v]; vals.append(cur)
+        else: cur = None
+    for ls in vals:
+        for m in _OP.finditer("\n".join(ls)):
+            if m.group(1) not in ("<<", "<=", "=", ">=", ">>"): return True
+    return False
+
+def uploaders_hash_piece(text):
+    """some Uploaders field of the text has a piece, not the first one, that starts with '#'"""
+    cur = None; vals = []
+    for l in text.replace("\r", "\n").split("\n"):
+        if l[:1] in (" ", "\t"):
+            if cur is not None and not l.lstrip(" \t").startswith("#"): cur.append(l.strip(" \t"))
+        elif l[:1] == "#" or l == "": 
+            if l == "": cur = None
+        elif ":" in l:
+            k, v = l.split(":", 1); cur = None
+            if k.rstrip(" \t") == "Uploaders": cur = [v.strip(" \t")]; vals.append(cur)
+        else: cur = None
+    for ls in vals:
+        ps = [x.strip(RUST_WS) for x in "\n".join(ls).split(",")]
+        if any(x.startswith("#") for x in ps[1:]): return True
+    return False
+
 def nbstrip(v):
     """the non-blank lines of a value, up to surrounding whitespace"""
     return [l.strip(" \t") for l in v.split("\n") if l.strip(" \t") != ""]
@@ -25,9 +65,17 @@ def fmt_py(code, k, v, table=None):
     if code == "s": return v.replace(";", "\n")
     if code == "u": return ",\n".join(x.strip(RUST_WS) for x in v.split(","))
     if code == "c":
-        if k == "Uploaders": return ",\n".join(x.strip(RUST_WS) for x in v.split(","))
+        if k == "Uploaders":
+            # pieces one per line; a piece that starts with '#' on the line of the piece before it (C07-21: on a line of its
+            # own it would be a comment line)
+            ps = [x.strip(RUST_WS) for x in v.split(",")]
+            out = ps[0]
+            for x in ps[1:]: out += (", " if x.startswith("#") else ",\n") + x
+            return out
         if k in REL_FIELDS:
-            return table.get(v.strip(" \t\n")) if table is not None else None
+            if table is None or v.strip(" \t\n") not in table: return None
+            o = table[v.strip(" \t\n")]
+            return v if o is None else o        # a value the relations parser rejects is left as it is (C07-22)
         return v
     return v
 
@@ -110,11 +158,13 @@ def block_of(pre, gs, trailing):
         out += [("#", c) for c in com] + [("F", name)] + [("v#", c) for c in vcs]
     return out + [("#", c) for c in trailing]
 
-def check_values(gs, items1, cfg, table=None):
-    """names in order; every value's non-blank lines up to surrounding whitespace, or exactly the formatter's output"""
+def check_values(gs, items1, cfg, table=None, excluded=()):
+    """names in order; every value's non-blank lines up to surrounding whitespace, or exactly the formatter's output
+    (not for the fields in [excluded]: formatter output the property does not speak about)"""
     if [g[1] for g in gs] != [k for k, _ in items1]:
         return "field names/order changed: expected %r, got %r" % ([g[1] for g in gs], [k for k, _ in items1])
-    for g, (k, v1) in zip(gs, items1):
+    for j, (g, (k, v1)) in enumerate(zip(gs, items1)):
+        if j in excluded: continue
         v0 = g[3][1]
         if cfg["pws"] and cfg["fmt"] != "n" and not g[2]:
             exp = fmt_py(cfg["fmt"], k, v0, table)
@@ -126,23 +176,37 @@ def check_values(gs, items1, cfg, table=None):
     return None
 
 def fmt_outside_domain(gs, cfg, table=None):
-    """formatter output the property does not speak about.  skip: a continuation line that starts with '#' (a comment to
-    every reader), or a blank last line; lead: a continuation line with leading whitespace (more indentation
-    than requested, the formatter's own)"""
-    skip = lead = False
-    if not cfg["pws"] or cfg["fmt"] == "n": return False, False
-    for g in gs:
+    """formatter output the property does not speak about, field by field.  Returns (excluded, lead): excluded = the indices
+    of the fields whose formatter output has a continuation line that starts with '#' (a comment line to every reader: the
+    value cannot be written) or ends with a blank line (the streams' ';' formatter on "A:;": nothing but line breaks) --
+    only for the streams' test formatters; the control formatter is checked on every field (a '#' piece of Uploaders stays
+    on its line, C07-21; a value that ends with ',' is like any other) --; lead: some continuation line has leading
+    whitespace (more indentation than requested, the formatter's own).  For an excluded field its value, its re-read value,
+    the comment lines its value shows and the second application (a clause about the whole text) are not checked;
+    everything else about the document is."""
+    excluded = set(); lead = False
+    if not cfg["pws"] or cfg["fmt"] == "n": return excluded, False
+    for idx, g in enumerate(gs):
         if g[2]: continue
         out = fmt_py(cfg["fmt"], g[1], g[3][1], table)
         if out is None: continue
-        if "\n" in out and out.split("\n")[-1].strip(" \t") == "": skip = True     # ends with a blank line
+        if cfg["fmt"] != "c" and "\n" in out and out.split("\n")[-1].strip(" \t") == "": excluded.add(idx)
         seen = False
         for j, l in enumerate(out.split("\n")):
             if j > 0 and l[:1] in (" ", "\t"): lead = True
             if l.strip(" \t") == "": continue
-            if seen and l.lstrip(" \t").startswith("#"): skip = True
+            if seen and l.lstrip(" \t").startswith("#") and cfg["fmt"] != "c": excluded.add(idx)
             seen = True
-    return skip, lead
+    return excluded, lead
+
+def drop_value_comments(block, excluded):
+    """the block without the ('v#', ..) lines of its fields number j in [excluded]"""
+    out = []; j = -1
+    for e in block:
+        if e[0] == "F": j += 1
+        if e[0] == "v#" and j in excluded: continue
+        out.append(e)
+    return out
 
 def indent_ok(t1, cfg, exact):
     cur = None
@@ -175,7 +239,11 @@ class C07(Prop):
     coq_targets = ["props/C07.vo"]
     props_file = "props/C07.v"
     design_ref = "DESIGN.md §4 C07"
-    level_text = ("Coq theorems for the code with the six proposed repairs (variant `fixed` of coq/model/Deb822Wrap.v), over all well-formed "
+    level_text = ("Coq theorems for the code with the eight repairs (variant `fixed` of coq/model/Deb822Wrap.v: six are in /repo, C07-21 "
+                  "-- an Uploaders piece that starts with '#' stays on its line -- and C07-22 -- a relationship field the relations parser rejects is "
+                  "left as it is instead of a panic -- are proposed, proposed_fixes/C07-2x; until they are in /repo the two classes are known "
+                  "findings c07-uploaders-hash-piece / c07-unparsable-relation-panics, C07_uploaders_hash_piece, "
+                  "C07_control_unparsable_relation_panics / _kept), over all well-formed "
                   "documents (Grammar.wf_doc) and all settings (Spaces(n>=1)/FieldNameLength, either immediate_empty_line, any one-line limit, any "
                   "comparators that depend only on names and values and give consistent answers): C07_holds = no panic; the result is exactly the tree of "
                   "the layout WrapSpec describes (comment lines stay in front of the same field/paragraph, groups sorted stably, fields rebuilt by the "
@@ -208,12 +276,26 @@ class C07(Prop):
                   "reported content; in D every continuation line is indented by the requested width, every line is terminated, and paragraphs are "
                   "separated by exactly one empty line (xsingle_blanks), none at the start or the end; likewise for the control wrappers on "
                   "C07_control_real's domain (C07_control_real_image). "
-                  "PARTIAL (streams + oracle only): formatters (the control formatter included) on error-free documents outside Grammar.wf_doc and "
-                  "formatters with unshaped output; relationship fields outside C13's domain; see docs/cones/C07.md 'What remains'.")
+                  "STANDING of the statements (all vocabulary in coq/model, none in proof files): against an independent specification -- "
+                  "everything on Grammar.v's documents (WrapSpec.v layout functions written from the documentation), the reader's image, and for "
+                  "error-free documents the re-read / indentation / empty-line / termination clauses, the field step (C07_error_free_field vs "
+                  "XWrapSpec.x_ws_field) and the reported content (C07_error_free_content, C07_error_free_paragraph: grouping, the caller's "
+                  "comparators, reported pairs); RESTATING THE MODEL -- C07_tokens_*, C07_error_free's 'the result is d_out' (WrapTokSpec.v part B "
+                  "calls rebuild_value): there the theorem is 'no panic + closed form', and where comment lines end up in a document outside "
+                  "Grammar.v is checked by the oracle only. "
+                  "PARTIAL (streams + oracle only): a second application to the tree re-read from the printed text (t2p); Deb822::wrap_and_sort "
+                  "without a paragraph function (wrap_and_sort_paragraph = None; only the moved-paragraph witness is a theorem); formatters (the "
+                  "control formatter included) on error-free documents outside Grammar.wf_doc and formatters with unshaped output; relationship "
+                  "fields outside C13's domain (unparsable ones are kept field-wise: C07_control_unparsable_relation_kept; a non-standard "
+                  "operator panics in the relations code: known class c07-nonstandard-operator-panics = C12's); the comparator premise "
+                  "cmp_consistent has no transitivity -- the theorems are about the model's stable insertion sort, its agreement with "
+                  "Vec::sort_by needs a total order (assumption); see docs/cones/C07.md 'What remains'.")
     level_note = ("Model: Entry/Paragraph/Deb822::wrap_and_sort, rebuild_value, inject (src/lossless.rs), lex_inline (src/lex.rs), format_field and "
                   "Control/Source/Binary::wrap_and_sort (debian-control/src/lossless/control.rs), the relations branch being C13's RelWrap.ctl_rel. "
-                  "The six repairs of this cone are in /repo (6a001af c25b7d1 a95d981 88b9361 101ca2e 5a3c57b): `./check C07` compares the model of "
-                  "the repaired code (variant `fixed`) with /repo; VERIF_C07_MODEL=shipped (or six 0/1 flags) evaluates the code before the repairs; "
+                  "Six repairs of this cone are in /repo (6a001af c25b7d1 a95d981 88b9361 101ca2e 5a3c57b), two are proposed (C07-21, C07-22): "
+                  "`./check C07` compares the model of the repaired code (variant `fixed`) with /repo -- on /repo 5517d72 the cases of the two proposed "
+                  "repairs fall into their known-finding classes, on a copy with the patches nothing differs; VERIF_C07_MODEL=shipped (or eight 0/1 "
+                  "flags; 11111100 = /repo 5517d72) evaluates other variants; "
                   "VERIF_C07_REL=table makes the control-wrap model take the relations formatter's values from the case instead of C13's model.")
     rule = ("hand-written edge cases (one per clause/defect) + /repo test literals + generated Grammar.doc inhabitants (every layout knob, values "
             "with ',' ';' '#') + exotic error-free texts (CR, blank/comment lines in values, blanks before ':') + control-file documents "
@@ -231,7 +313,8 @@ class C07(Prop):
                "the relations branch of format_field is C13's model RelWrap.ctl_rel (coq/model/RelWrap.v, tied to the code by C13's streams and by control-wrap); the table computed by the harness helper control-fmt-table is used by the oracle only",
                "extraction (ExtrOcamlBasic only), OCaml runner, Rust harness, Python driver/generators/oracle"]
     assumptions = ["inputs are valid UTF-8 (Rust &str)", "field names shorter than 4 GiB (the `as u32` cast of FieldNameLength is not modelled)",
-                   "comparators and formatters passed by the caller return (do not panic) and comparators give consistent answers (Vec::sort_by's contract)",
+                   "comparators and formatters passed by the caller return (do not panic); comparators are total preorders (Vec::sort_by's contract: "
+                   "the theorems need only that a<b and b<a are never both answered, the agreement of the model's stable insertion sort with Vec::sort_by needs transitivity too)",
                    "relationship fields of control files: well-formed fields of C10's grammar in C13's safe domain (no digit run above 2^31-1 in a version)"]
     case_ms = 6000
 
@@ -250,8 +333,7 @@ class C07(Prop):
             return None      # texts with syntax errors: outside the property (the tree has ERROR nodes); correspondence only
         if impl == "PANIC":
             if cfg["ind"] == "s0": return None          # Spaces(0): outside the property (assert!)
-            if stream == "control-wrap" and self._rel_unparsable(text, fields, True): return None
-            return "implementation PANIC"
+            return "implementation PANIC"               # also on a relationship field the relations parser rejects (C07-22)
         r = rec_fields(impl)
         if r.get("strict") != "OK": return None         # not an error-free document
         p0 = parse_doc_items(r["it0"])
@@ -260,7 +342,6 @@ class C07(Prop):
         if stream == "control-wrap":
             table = self._table(fields)
             cfg = dict(cfg, psort="c", esort="n", fmt="c", pws=True)
-            if self._rel_unparsable(text, fields): return "implementation did not panic on an unparsable relationship field"
         return self._doc(text, cfg, r, p0, table, stream)
 
     def _table(self, fields):
@@ -305,34 +386,43 @@ class C07(Prop):
         if cmp: order.sort(key=functools.cmp_to_key(lambda i, j: cmp(p0[i], p0[j])))
         if len(p1) != len(p0): return "number of paragraphs changed"
         st = structure(text, p0)
-        skip = lead = False
-        todo = []
+        lead = False
+        todo = []; excl = {}
         for rank, i in enumerate(order):
             if st is not None:
                 gs = expected_paragraph(st[0][i], cfg)
             else:
                 gs = [[[], k, [], (k, v)] for k, v in p0[i]]
                 if cfg["pws"] and cfg["esort"] == "k": gs.sort(key=lambda g: g[1].encode("utf-8"))
-            h, l = fmt_outside_domain(gs, cfg, table); skip |= h; lead |= l
+            ex, l = fmt_outside_domain(gs, cfg, table); lead |= l
+            if ex: excl[rank] = ex
             todo.append((gs, rank))
-        if skip: return None
         for gs, rank in todo:
             if st is None and cfg["pws"] and cfg["fmt"] != "n":
                 # cannot tell whether the formatter applies (comment lines inside a value): names only
                 if [g[1] for g in gs] != [k for k, _ in p1[rank]]: return "field names/order changed"
                 continue
-            why = check_values(gs, p1[rank], cfg, table)
+            why = check_values(gs, p1[rank], cfg, table, excl.get(rank, ()))
             if why: return why
-        # the printed result parses strictly and re-reads to what the returned object reports
+        # the printed result parses strictly and re-reads to what the returned object reports (field by field; not the value
+        # of a field whose formatter output cannot be written)
+        if not r["rr"].startswith("OK:"):
+            return "printed result does not parse strictly (rr=%s)" % r["rr"][:80]
         if r["rr"] != "OK:" + r["it1"]:
-            return "printed result does not re-read to the content the returned object reports (rr=%s)" % r["rr"][:80]
+            prr = parse_doc_items(r["rr"][3:])
+            if len(prr) != len(p1): return "printed result re-reads to another number of paragraphs (rr=%s)" % r["rr"][:80]
+            for rank, (a, b) in enumerate(zip(prr, p1)):
+                if [k for k, _ in a] != [k for k, _ in b]: return "printed result re-reads to other fields (rr=%s)" % r["rr"][:80]
+                for j, ((_, va), (k, vb)) in enumerate(zip(a, b)):
+                    if va != vb and j not in excl.get(rank, ()):
+                        return "printed result does not re-read to the content the returned object reports: field %r (rr=%s)" % (k, r["rr"][:80])
         # a second application changes nothing -- promised for comparators that do not depend on what is being
         # rewritten: the requested paragraph order of the result must be the order it already has
         stable = True
         if cmp:
             o1 = sorted(range(len(p1)), key=functools.cmp_to_key(lambda i, j: cmp(p1[i], p1[j])))
             stable = o1 == list(range(len(p1)))
-        if stable:
+        if stable and not excl:
             if t2 != t1: return "second application changes the text"
             if "t2p" in r and not lead and unhex(r["t2p"]) != t1: return "application to the re-read result changes the text"
         if "\r" not in t1:
@@ -352,6 +442,9 @@ class C07(Prop):
                 if exp: exp[-1] = exp[-1] + [("#", c) for c in trailing]
                 else: exp = [[("#", c) for c in trailing]]
             got = skeleton(t1)
+            if excl and len(got) == len(exp):
+                got = [drop_value_comments(b, excl.get(rank, ())) for rank, b in enumerate(got)]
+                exp = [drop_value_comments(b, excl.get(rank, ())) for rank, b in enumerate(exp)]
             if got != exp:
                 return "comment/field line structure changed: expected %r, got %r" % (exp, got)
         if stream == "control-wrap":
@@ -374,14 +467,13 @@ class C07(Prop):
             lead = False
             if st is not None:
                 gs = expected_paragraph(st[0][i], cfg)
-                skip, lead = fmt_outside_domain(gs, cfg)
-                if skip: continue
-                why = check_values(gs, items1, cfg)
+                excl, lead = fmt_outside_domain(gs, cfg)
+                why = check_values(gs, items1, cfg, None, excl)
                 if why: return why
             else:
                 gs0 = [[[], k, [], (k, v)] for k, v in p0[i]]
-                skip, lead = fmt_outside_domain(gs0, cfg)
-                if skip: continue
+                if cfg["esort"] == "k": gs0.sort(key=lambda g: g[1].encode("utf-8"))
+                excl, lead = fmt_outside_domain(gs0, cfg)
                 names = [k for k, _ in p0[i]]
                 if cfg["esort"] == "k": names.sort(key=lambda k: k.encode("utf-8"))
                 if names != [k for k, _ in items1]: return "field names/order changed"
@@ -391,29 +483,41 @@ class C07(Prop):
                     why = check_values(gs, items1, cfg)
                     if why: return why
             if rr != "OK:[" + it1 + "]" and not (it1 == "" and rr == "OK:"):
-                return "printed paragraph does not re-read to the content the returned object reports"
-            if t2h != t1h: return "second application changes the paragraph"
+                if not rr.startswith("OK:"): return "printed paragraph does not parse strictly"
+                prr = parse_doc_items(rr[3:]) if rr != "OK:" else []
+                if len(prr) != 1 or [k for k, _ in prr[0]] != [k for k, _ in items1]:
+                    return "printed paragraph does not re-read to the fields the returned object reports"
+                for j, ((_, va), (k, vb)) in enumerate(zip(prr[0], items1)):
+                    if va != vb and j not in excl:
+                        return "printed paragraph does not re-read to the content the returned object reports: field %r" % k
+            if t2h != t1h and not excl: return "second application changes the paragraph"
             if "\r" not in t1:
                 why = indent_ok(t1, cfg, exact=not lead and cfg["fmt"] == "n")
                 if why: return why
                 if st is not None:
                     p = st[0][i]
-                    exp = [block_of([], expected_paragraph(p, cfg), p["trailing"])]
-                    if skeleton(t1) != exp:
+                    exp = [drop_value_comments(block_of([], expected_paragraph(p, cfg), p["trailing"]), excl)]
+                    if [drop_value_comments(b, excl) for b in skeleton(t1)] != exp:
                         return "comment/field line structure of a paragraph changed: expected %r, got %r" % (exp, skeleton(t1))
             # entries
             ents = es.split(";") if es else []
             if len(ents) != len(p0[i]): return "number of entries differs"
             for (k0, v0), e in zip(p0[i], ents):
                 e1, kv, e2 = e.split(",")
-                if e2 != e1: return "second application changes an entry"
+                has_out = False
+                if cfg["fmt"] != "n":
+                    o = fmt_py(cfg["fmt"], k0, v0)
+                    has_out = ("\n" in o and o.split("\n")[-1].strip(" \t") == "") or any(l.lstrip(" \t").startswith("#") for l in o.split("\n")[1:])
+                if e2 != e1 and not has_out: return "second application changes an entry"
                 k1, v1 = kv.split("=", 1)
                 if k1 != "+" + hexs(k0): return "entry name changed"
                 has_vc = st is not None and any(g[2] for g in st[0][i]["groups"] if g[1] == k0 and g[3] == (k0, v0))
                 if cfg["fmt"] == "n" or st is None or has_vc:
                     if cfg["fmt"] == "n" and nbstrip(unhex(v1)) != nbstrip(v0): return "entry value changed"
                 elif nbstrip(unhex(v1)) != nbstrip(fmt_py(cfg["fmt"], k0, v0)):
-                    return "entry value is not the formatter's output"
+                    o = fmt_py(cfg["fmt"], k0, v0).split("\n")
+                    if not any(l.lstrip(" \t").startswith("#") for l in o[1:]):     # else: output that cannot be written
+                        return "entry value is not the formatter's output"
         return None
 
     def shrink_field(self, stream):
@@ -427,6 +531,12 @@ class C07(Prop):
         return True
 
     def known_class(self, stream, fields, impl, model, why):
+        """the two classes of the audit of cone-c07c, until proposed_fixes/C07-21 / C07-22 are in /repo"""
+        if stream != "control-wrap": return None
+        text = unhex(fields[0])
+        if "PANIC" in (impl or "") and nonstandard_operator(text): return CLS_OP
+        if "PANIC" in (impl or "") and self._rel_unparsable(text, fields, True): return CLS_REL
+        if uploaders_hash_piece(text): return CLS_UPL
         return None
 
     def neighbours(self, stream, fields):
